@@ -253,11 +253,24 @@ class Runner:
         # file names (hence module names and the sorted checking order) are fixed per group so
         # that the per-file and the all-in-one invocation see the very same files
         names = {p: "m%03d_%s.py" % (k, _re.sub(r"\W", "_", p)[-40:]) for k, p in enumerate(picked)}
-        ops_each = [{"op": "files", "mode": "each", "pids": [p], "root": root + "e", "isolate": True, "names": names} for p in picked]
+        overrides = None
+        if r.chance(0.4):
+            # package layout with (nested) per-module option overrides from a configuration file
+            dirs = ["", "pkga/", "pkga/strict/", "pkga/other/", "pkgb/", "pkgb/deep/er/"]
+            names = {p: r.choice(dirs) + nm for p, nm in names.items()}
+            toggles = [("undefined_name", False), ("possibly_undefined_name", False), ("incompatible_argument", False), ("unused_variable", False),
+                       ("for_loop_always_entered", True), ("missing_return_annotation", True), ("incompatible_call", False), ("value_always_true", False)]
+            overrides = []
+            for prefix in r.sample(["pkga", "pkga.strict", "pkga.other", "pkgb", "pkgb.deep", "pkgb.deep.er"], r.randint(2, 5)):
+                overrides.append([prefix, dict(r.sample(toggles, r.randint(1, 3)))])
+            if r.chance(0.5):
+                some = r.choice(sorted(names.values()))
+                overrides.append([some[:-3].replace("/", "."), dict(r.sample(toggles, 2))])
+        ops_each = [{"op": "files", "mode": "each", "pids": [p], "root": root + "e", "isolate": True, "names": names, "overrides": overrides} for p in picked]
         jobs.append(Job("files/%d/each" % idx, "files", h, 0, ops_each, {"mode": "each", "group": idx}))
         mode = r.choice(["all", "all", "n2"])
         order = list(picked)
-        ops_all = [{"op": "files", "mode": mode, "pids": order, "root": root + "a", "isolate": True, "names": names}]
+        ops_all = [{"op": "files", "mode": mode, "pids": order, "root": root + "a", "isolate": True, "names": names, "overrides": overrides}]
         jobs.append(Job("files/%d/%s" % (idx, mode), "files", h, 0, ops_all, {"mode": mode, "group": idx}))
         return jobs
 
